@@ -6,7 +6,7 @@ import Mathlib.Tactic.FieldSimp
 # C06 — AD energy derivatives (partial: what a theorem can carry)
 
 The correctness of JAX's AD engine (`jvp`, `vjp`, `checkpoint`, `custom_jvp` wiring) is **not** a
-theorem here; the tie compares forward mode, reverse mode and finite differences of the very function
+theorem; the tie compares forward mode, reverse mode and finite differences of the very function
 `driver.afqmc` differentiates.  What is proved (single-determinant models, all dimensions):
 
 * **particle-number symmetry**: shifting `h1[s]` by `λ·1` shifts the local energy of every walker by
